@@ -347,6 +347,14 @@ def run(ctx):
                       "labels are added for %s (expected %s): the task-type timeline would show values without a label" %
                       ([11 + k_ for k_ in range(3) if present[k_]], [str(a_[1]) for a_ in added], [v_[1] for v_ in want_add]))
 
+    # ---- R13.6 the record writer ----------------------------------------------------------------------
+    ctx.rule("R13.6", "emit() (prv.c), evaluated on 48 cases of (channel flags, value, same as the last record or "
+             "not): writes exactly the record 2:0:1:1:<row>:<time>:<type>:<value> for a new value, treats "
+             "duplicates as the flags document (skip / emit / error), adds one under PRV_NEXT, refuses 0 without "
+             "PRV_ZERO and writes null as 0; the text is reconstructed from the stdio calls")
+    from rules import infra as _infra
+    _infra.check_prv_emit(ctx, "R13.6")
+
     # ---- R13.5 --------------------------------------------------------------------------------------
     ctx.rule("R13.5", "the code that declares types, labels and rows walks each list (threads, processes, CPUs, looms, "
              "mark types, PCF types ...) through the link that list is built with, so that every element is "
